@@ -945,3 +945,17 @@ benign("C04","fund-gauge-helper-with-own-coins",[
 
 func (k msgServer) BuyStorage("""),
 ])
+
+
+# ---- behaviour-preserving refactors written by independent sub-agents (benign/<prop>/*.diff): each is run against
+# every property whose check reads the touched code (listed in benign/<prop>/props.json, default: the property itself)
+import glob, json as _json
+for _d in sorted(glob.glob(os.path.join(os.path.dirname(os.path.abspath(__file__)), "..", "benign", "*"))):
+    _own = os.path.basename(_d)
+    _props = [_own]
+    if os.path.exists(os.path.join(_d, "props.json")):
+        _props = _json.load(open(os.path.join(_d, "props.json")))
+    for _f in sorted(glob.glob(os.path.join(_d, "*.diff"))):
+        _base = os.path.basename(_f)[:-5]
+        for _p in _props.get(_base, [_own]) if isinstance(_props, dict) else _props:
+            benign_patch(_p, "agent-%s-%s" % (_own, _base), os.path.join("benign", _own, os.path.basename(_f)), "independent benign refactor")
